@@ -7,6 +7,7 @@ import errno
 import hashlib
 import io
 import os
+import re
 import sys
 import time as _time
 
@@ -423,6 +424,17 @@ def _faulty_open(file, mode, ctx, spec, k):
         limit = size - 1
     elif where == "middle":
         limit = size // 2
+    elif where.startswith("fab-header"):
+        # at (or 5 bytes into) the header line of the k-th later FAB of a binary file: the read that fails is
+        # the one looking for the next box, which sequential readers also use to find the end of the file
+        _, k, delta = where.split(":")
+        with _REAL_OPEN(file, "rb") as fh:
+            blob = fh.read()
+        starts = [mt.start() for mt in re.finditer(rb"FAB \(\(", blob)][1:]
+        if starts:
+            limit = min(starts[int(k) % len(starts)] + int(delta), size - 1)
+        else:
+            limit = size // 2
     else:                           # just after the first line (the header line of the first FAB)
         with _REAL_OPEN(file, "rb") as fh:
             limit = min(len(fh.readline()), size - 1)
